@@ -337,6 +337,12 @@ func check(p *propDef, tier string) int {
 	if v := os.Getenv("VERIF_RUNS"); v != "" {
 		nRuns, _ = strconv.Atoi(v)
 	}
+	if v := os.Getenv("VERIF_FLOOD_P"); v != "" {
+		// experiment knob (not set by the registered commands): share of C09 runs that carry a volume fault
+		if x, err := strconv.ParseFloat(v, 64); err == nil {
+			gen.FloodP = x
+		}
+	}
 	if p.gateOps {
 		gateII(p, seeds[0])
 	}
